@@ -730,10 +730,86 @@ def propagate_new_constants(trees: Dict[str, ast.Module]) -> Dict[str, str]:
     return report
 
 
+def ordered_locals(fn) -> List[str]:
+    """Names bound in the function's own scope (not in nested functions, lambdas, comprehensions), in order of first binding."""
+    found: List[Tuple[int, int, str]] = []
+    stack = list(fn.body)
+    while stack:
+        x = stack.pop()
+        if isinstance(x, (ast.FunctionDef, ast.AsyncFunctionDef, ast.ClassDef)):
+            found.append((x.lineno, x.col_offset, x.name))
+            continue
+        if isinstance(x, (ast.Lambda, ast.ListComp, ast.SetComp, ast.DictComp, ast.GeneratorExp)):
+            continue
+        if isinstance(x, ast.Name) and isinstance(x.ctx, ast.Store):
+            found.append((x.lineno, x.col_offset, x.id))
+        if isinstance(x, ast.ExceptHandler) and x.name:
+            found.append((x.lineno, x.col_offset, x.name))
+        stack.extend(ast.iter_child_nodes(x))
+    a = fn.args
+    params = {y.arg for y in a.posonlyargs + a.args + a.kwonlyargs} | ({a.vararg.arg} if a.vararg else set()) | ({a.kwarg.arg} if a.kwarg else set())
+    declared = {nm for y in ast.walk(fn) if isinstance(y, (ast.Global, ast.Nonlocal)) for nm in y.names}
+    out: List[str] = []
+    for _, _, nm in sorted(found):
+        if nm not in out and nm not in params and nm not in declared:
+            out.append(nm)
+    return out
+
+
+def undo_local_renames(trees: Dict[str, ast.Module]) -> Dict[str, str]:
+    """A function of the reference tree whose locals, in order of first binding, differ from the reference only by their names
+    (same number of locals, the new names unknown to the reference function, the old names no longer used in it) had locals
+    renamed: the reference names are put back in the model, so a rule that knows a variable by its name still finds it."""
+    if not os.path.exists(KNOWN_FILE):
+        return {}
+    with open(KNOWN_FILE) as fh:
+        ref = json.load(fh).get("locals")
+    if not ref:
+        return {}
+    report: Dict[str, str] = {}
+    for mod, tree in trees.items():
+        for qn, fn, chain in qualnames(tree, mod):
+            want = ref.get(qn)
+            if want is None:
+                continue
+            have = ordered_locals(fn)
+            if have == want or len(have) != len(want):
+                continue
+            pairs = [(h, w) for h, w in zip(have, want) if h != w]
+            used = {x.id for x in ast.walk(fn) if isinstance(x, ast.Name)} | {x.arg for x in ast.walk(fn) if isinstance(x, ast.arg)} | \
+                   {x.name for x in ast.walk(fn) if isinstance(x, (ast.FunctionDef, ast.AsyncFunctionDef, ast.ClassDef)) and x is not fn}
+            ok = all(h not in want and w not in used for h, w in pairs) and len({h for h, _ in pairs}) == len(pairs) == len({w for _, w in pairs})
+            # a nested function that re-binds one of the names as its own local / parameter keeps it
+            if ok:
+                for y in ast.walk(fn):
+                    if isinstance(y, (ast.FunctionDef, ast.AsyncFunctionDef, ast.Lambda)) and y is not fn:
+                        a = y.args
+                        inner = {z.arg for z in a.posonlyargs + a.args + a.kwonlyargs}
+                        if not isinstance(y, ast.Lambda):
+                            inner |= set(ordered_locals(y))
+                        if inner & {h for h, _ in pairs}:
+                            ok = False
+            if not ok:
+                continue
+            m = dict(pairs)
+            for y in ast.walk(fn):
+                if isinstance(y, ast.Name) and y.id in m:
+                    y.id = m[y.id]
+                elif isinstance(y, ast.ExceptHandler) and y.name in m:
+                    y.name = m[y.name]
+                elif isinstance(y, (ast.FunctionDef, ast.AsyncFunctionDef, ast.ClassDef)) and y is not fn and y.name in m:
+                    y.name = m[y.name]
+            report[qn] = "locals renamed (" + ", ".join(f"{h} -> {w}" for h, w in pairs) + "): analysed under the reference names"
+    return report
+
+
 def inline_new_helpers(trees: Dict[str, ast.Module]) -> Dict[str, str]:
     known = load_known()
     if known is None:
         return {}
-    report = propagate_new_constants(trees)
+    report = undo_local_renames(trees) if not os.environ.get("XSM_NO_LOCAL_RENAME") else {}
+    from .localnames import name_locals
+    report.update(name_locals(trees))
+    report.update(propagate_new_constants(trees))
     report.update(Inliner(trees, known).run())
     return report
